@@ -12,6 +12,7 @@ import (
 	"verifharness/internal/c06"
 	"verifharness/internal/c13"
 	"verifharness/internal/common"
+	"verifharness/internal/inventory"
 )
 
 type sub func(tier string, seed int64, outDir string) *common.Meta
@@ -26,6 +27,9 @@ var subs = map[string]sub{
 
 var gens = map[string]func(outDir string) error{
 	"registry": c06.GenRegistry,
+	"stateinv": inventory.GenStateInventory,
+	"maprange": inventory.GenMapRangeSites,
+	"mutsites": inventory.GenMutationSites,
 }
 
 func main() {
